@@ -125,6 +125,13 @@ CLAIMS = {
              "index DIGITS symbolic (two- and three-digit indices per level: all indices 1..999 in one path per template); results are compared with the digit polynomial, "
              "the field key and the table description; families of underscore field names are checked in sequences.",
         note="Trusted: CPython, z3, string proxy; boundary indices additionally replayed concretely.", ref="DESIGN.md section 5 C19", technique=TECH),
+    "C17": dict(
+        text="Relational bounded symbolic execution: differently configured readers (validate a free integer with the checksum bit clear, parsed a free boolean, three error "
+             "modes, both label options) iterate the SAME symbolic stream inside one path as the reference reader (validate=1, parsed=True, checksums valid by assumption); "
+             "returned raw frames, decoded attribute terms, exception/frame event order and iteration end must coincide, attribute terms must not mention the checksum bytes; "
+             "static parser: parse(f, validate=even) == parse(f with right checksum, validate=1) term by term (payloads up to 1023 bytes, incl. 600).",
+        note="Trusted: CPython, z3, stream double; frames without a message number are left out of the parsed on/off comparison (they cannot be parsed at all).",
+        ref="DESIGN.md section 5 C17", technique=TECH),
 }
 
 NA_REASON = "check under construction in this build round (see DESIGN.md); will be claimed once its harness lands"
